@@ -142,6 +142,18 @@ func runC12(rcx *RunCtx) {
 		if !good {
 			rcx.Find("C12", "wrong-rversion", "Tversion", "Tversion{msize %d, %q}: got Rversion{%d %q}, the rule allows %v", msize, trunc(version, 60), rv.Msize, rv.Version, allowed)
 		}
+		if rv.Version == "unknown" {
+			// a refusal changes nothing: the peer may try again, and "a
+			// Tversion always gets an Rversion"
+			retry := c.Send(rc.NoTag, &rc.Tversion{Msize: 8192, Version: "9P2000.L"})
+			simrt.WaitQuiescent()
+			if retry.Reply == nil {
+				rcx.Find("C12", "no-reply", "retry", "after Tversion{%d %q} was refused, a plain Tversion{8192 9P2000.L} was not answered", msize, trunc(version, 60))
+			} else if r2, ok := retry.Reply.Msg.(*rc.Rversion); !ok || r2.Msize != 8192 || r2.Version != "9P2000.L" {
+				rcx.Find("C12", "wrong-rversion", "retry", "after Tversion{%d %q} was refused, Tversion{8192 9P2000.L} got %s", msize, trunc(version, 60), rc.String(retry.Reply.Msg))
+			}
+			rcx.Count("refused_then_retried", 1)
+		}
 		// the announced version parses back to the same number
 		if rv.Version != "unknown" {
 			back := refNegotiate(rv.Msize, rv.Version)
@@ -175,7 +187,7 @@ func init() {
 		Run:  runC12,
 		Directed: func(string) int { return c12Cases() },
 		Quick:    24000, Thorough: 3000000, QuickSecs: 60, ThorSecs: 900,
-		Rule:  fmt.Sprintf("server: full cross product of %d msize values (0, 1, <header, 154, 4 MiB+-1, 2^31, 2^32-1) x %d version strings (every N incl. leading zeros, 32-bit overflow, signs, extra dots, case, trailing bytes, other dialects, arbitrary bytes), fresh and mid-session, plus random strings from version-like pieces; client: all pairs (requested, offered) with fake servers that lower msize and/or version, answer unknown / other dialects / garbage, Rlerror(EAGAIN) k times or another Rlerror. Oracle: an executable ten-line reference of the statement's rule (both readings accepted where the statement leaves N's form open); reply never Rlerror; announced version re-negotiates to itself; client: NewClient fails for non-9P2000.L replies, else Version() = offered and every later frame fits the offered msize and uses only message types of the offered version. Input/configuration property: the search is over values, not schedules.", len(c12Msizes), len(c12Versions)),
+		Rule:  fmt.Sprintf("server: full cross product of %d msize values (0, 1, <header, 154, 4 MiB+-1, 2^31, 2^32-1) x %d version strings (every N incl. leading zeros, 32-bit overflow, signs, extra dots, case, trailing bytes, other dialects, arbitrary bytes), fresh and mid-session, every refusal followed by a plain retry that must be answered, plus random strings from version-like pieces; client: all pairs (requested, offered) with fake servers that lower msize and/or version, answer unknown / other dialects / garbage, Rlerror(EAGAIN) k times or another Rlerror. Oracle: an executable ten-line reference of the statement's rule (both readings accepted where the statement leaves N's form open); reply never Rlerror; announced version re-negotiates to itself; client: NewClient fails for non-9P2000.L replies, else Version() = offered and every later frame fits the offered msize and uses only message types of the offered version. Input/configuration property: the search is over values, not schedules.", len(c12Msizes), len(c12Versions)),
 		Real:  []string{"p9.Server (tversion.handle, parseVersion)", "p9.NewClient", "p9 wire codec"},
 		Stub:  []string{"transport (simnet pipes)", "raw 9P peer / fake server (refcodec)", "backend tree (simfs)"},
 	})
